@@ -51,6 +51,12 @@ CLAIMED = {
         note="Trusted: Coq kernel, translator (layout expressions), extraction, harness; pointer provenance not modelled. Axioms: none.",
         technique="Coq arithmetic proof over translated layout expressions + call-sequence differential harness",
     ),
+    "C17": dict(
+        text="Coq theorems (Props/C17.v, 18 theorems) over a hand model of utf32_str.rs + chars::graphemes with the grapheme segmentation as an INPUT of the model: Ascii form iff all-ASCII and no CR LF; bytes = text; otherwise first code point per cluster (LF for CR LF); length = number of clusters (the Ascii-form clause is proved equivalent to 'ASCII CRLF-free text has singleton clusters', which the harness validates exhaustively for all ASCII strings of length 1 and 2); all constructors agree for any prior buffer; get/first/last/slice/slice_u32 (all nine RangeBounds shapes, debug and release arithmetic)/chars in both directions/Display/Debug agree with the content. The proof is thin by nature; the weight is on the correspondence: every constructor and accessor of the real type on structured grapheme-rich strings, all ranges of short strings, malformed streams.",
+        design_ref="DESIGN.md section 6, C17",
+        note="Trusted: Coq kernel, extraction, harness; UAX#29 segmentation (unicode-segmentation crate) and char::escape_debug are inputs of the model obtained from the real crates per case; hypotheses seg_ok / seg_ascii_singletons are checked on every case. Utf32Str::first/last are pub(crate): modelled, tied by reading only. Axioms: none.",
+        technique="Coq proof over a hand model parameterised by the segmentation + differential correspondence",
+    ),
 }
 PENDING_REASON = "not claimed yet: the Coq model, theorems and code tie for this property are still being built in this session (design in DESIGN.md section 6); no other technique is substituted"
 
